@@ -453,16 +453,27 @@ Definition dop_wf (o : dop) : Prop :=
   | DNewEpoch _ fee => 0 <= fee
   | DClaim _ _ shares => shares_wf shares
   | DSetGrace _ _ => True
+  | DNewEpochF _ fee _ => 0 <= fee
   | DStray _ => True
   end.
 Definition dhist_wf (h : list dsevent) : Prop := Forall (fun e => dop_wf (snd e)) h.
 
 Lemma dstep_inv k c now s o s' f : Inv k s -> dop_wf o -> dstep c now s o = Ok (s', f) -> Inv (k + stray_of f) s'.
 Proof.
-  intros I W H. destruct o as [ok fee|who fb shares|admin g|x]; cbn [dstep] in H.
+  intros I W H. destruct o as [ok fee|who fb shares|admin g|ok fee x|x]; cbn [dstep] in H.
   - apply bind_ok in H as [s1 [H1 H]]. inversion H; subst. cbn [stray_of]. rewrite Z.add_0_r. eapply new_epoch_inv; eauto.
   - apply bind_ok in H as [[s1 p] [H1 H]]. inversion H; subst. cbn [fst stray_of]. rewrite Z.add_0_r. eapply claim_spec; eauto.
   - apply bind_ok in H as [s1 [H1 H]]. inversion H; subst. cbn [stray_of]. rewrite Z.add_0_r. eapply set_grace_spec; eauto.
+  - apply bind_ok in H as [u [H0 H]]. apply ensure_ok in H0. apply Z.ltb_lt in H0.
+    apply bind_ok in H as [s1 [H1 H]]. inversion H; subst. cbn [stray_of]. cbn [dop_wf] in W.
+    pose proof (new_epoch_inv _ _ _ _ _ _ _ I W H1) as I1.
+    constructor; cbn [d_epochs d_bal d_grace d_cursor].
+    + apply (inv_ids k s1 I1).
+    + apply (inv_ledger k s1 I1).
+    + pose proof (inv_bal k s1 I1). lia.
+    + apply (inv_grace k s1 I1).
+    + apply (inv_expired k s1 I1).
+    + pose proof (inv_k k s1 I1). lia.
   - apply bind_ok in H as [u [H1 H]]. apply ensure_ok in H1. apply Z.ltb_lt in H1. inversion H; subst. cbn [stray_of].
     constructor; cbn [d_epochs d_bal d_grace d_cursor].
     + apply (inv_ids k s I).
@@ -491,14 +502,14 @@ Lemma strays_nonneg c g h : 1 <= g -> dhist_wf h -> 0 <= strays (dseffects c (di
 Proof. intros G W. apply (inv_k _ _ (distributor_inv c g h G W)). Qed.
 
 (* without plain transfers the balance is exactly the sum of the available ledgers *)
-Definition is_stray (o : dop) : bool := match o with DStray _ => true | _ => false end.
+Definition is_stray (o : dop) : bool := match o with DStray _ | DNewEpochF _ _ _ => true | _ => false end.
 Lemma no_stray_effects c h : forall s, forallb (fun e => negb (is_stray (snd e))) h = true -> strays (dseffects c s h) = 0.
 Proof.
   induction h as [|e r IH]; intros s F; cbn [dseffects]; [reflexivity|].
   cbn [forallb] in F. apply andb_true_iff in F as [F1 F2].
   destruct (dstep c (fst e) s (snd e)) as [[s' f]| |] eqn:E; auto.
   unfold strays. cbn [map sumZ]. fold (strays (dseffects c s' r)). rewrite IH by auto.
-  destruct (snd e) as [ok fee|who fb shares|admin g|x]; cbn [is_stray negb] in F1; try discriminate; cbn [dstep] in E.
+  destruct (snd e) as [ok fee|who fb shares|admin g|ok fee x|x]; cbn [is_stray negb] in F1; try discriminate; cbn [dstep] in E.
   - apply bind_ok in E as [s1 [_ E]]. inversion E; subst. reflexivity.
   - apply bind_ok in E as [s1 [_ E]]. inversion E; subst. reflexivity.
   - apply bind_ok in E as [s1 [_ E]]. inversion E; subst. reflexivity.
@@ -539,7 +550,7 @@ Lemma paid_step k c who now s o s' f pre :
   Inv k s -> dop_wf o -> dstep c now s o = Ok (s', f) -> Paid who s pre -> Paid who s' (pre ++ [f]).
 Proof.
   intros I W H [ND LE]. unfold Paid, paid_ids in *. rewrite flat_map_app. cbn [flat_map]. rewrite app_nil_r.
-  destruct o as [ok fee|w fb shares|admin g|x]; cbn [dstep] in H.
+  destruct o as [ok fee|w fb shares|admin g|ok fee x|x]; cbn [dstep] in H.
   - apply bind_ok in H as [s1 [H1 H]]. inversion H; subst. cbn [paid_ids_of]. rewrite app_nil_r.
     destruct (new_epoch_spec _ _ _ _ _ _ _ I W H1) as (Hc & _). rewrite Hc. auto.
   - apply bind_ok in H as [[s1 p] [H1 H]]. inversion H; subst. cbn [fst snd paid_ids_of].
@@ -560,6 +571,8 @@ Proof.
       intros i Ii. rewrite cfind_cset_other by auto. auto.
   - apply bind_ok in H as [s1 [H1 H]]. inversion H; subst. cbn [paid_ids_of]. rewrite app_nil_r.
     destruct (set_grace_spec _ _ _ _ _ I H1) as (_ & _ & _ & _ & _ & Hc & _). rewrite Hc. auto.
+  - apply bind_ok in H as [u [_ H]]. apply bind_ok in H as [s1 [H1 H]]. inversion H; subst. cbn [paid_ids_of d_cursor]. rewrite app_nil_r.
+    destruct (new_epoch_spec _ _ _ _ _ _ _ I W H1) as (Hc & _). rewrite Hc. auto.
   - apply bind_ok in H as [u [H1 H]]. inversion H; subst. cbn [paid_ids_of d_cursor]. rewrite app_nil_r. auto.
 Qed.
 
